@@ -351,4 +351,10 @@ def gValueObj (g : Graph) (p : Path) (s : Term) : Option Term := (gObjects g p (
 /-- `Graph.value(None, path, o)` -/
 def gValueSubj (g : Graph) (p : Path) (o : Term) : Option Term := (gSubjects g p (some o) false).head?
 
+/-- `MulPath.eval(graph, subj, obj, first)`: the public `first` flag; `first=False` skips the zero-length step on the given
+    end(s) (`if self.zero and first:`) — `_all_fwd_paths` still reports every node when both ends are free -/
+def mulEvalF (g : Graph) (ev : Ev) (m : Mod) (first : Bool) : Ev := fun s o =>
+  let z := if m.zero && first then zeroPairs s o else []
+  z ++ dedupInto z (mulRun g ev m s o).1
+
 end RV.C11
